@@ -1,67 +1,329 @@
-"""C14 — relaxing and restoring constraints only moves them (DESIGN §5 C14)."""
+"""C14 — relaxing and restoring constraints only moves them (DESIGN §5 C14).
+
+Written against the normal form (`VIEW = 'norm'`): `iter().position(p)` and a hand-written counting loop
+look the same (a `next` loop with a counter that starts at 0 and is incremented once per element), a
+spliced predicate closure is ordinary control flow inside that loop.
+
+What is decided for each of the two operations (src list -> dst list):
+
+  lookup   the index handed to the removal is the value of a counter of a loop over *self.src itself*
+           (no reordering / restricting adaptor, incremented exactly once per element), read only where an
+           `element.id == argument` comparison has succeeded, and `not found` can only lead to Err-exits;
+  move     every successful path passes exactly one removal from self.src and exactly one push onto
+           self.dst, the pushed value is (built from) the removed one, no other size-changing operation
+           touches the two lists;
+  reason   (relax) the wrapper carries the removed constraint and both reason arguments;
+  frame    nothing else of self is written, no Err-exit after a mutation, the moved element is not
+           modified on its way.
+"""
 from .common import *
 
+VIEW = 'norm'
+
 INST = 'v1::Instance'
-REMOVE_RE = r'Vec::<%s>::(remove|swap_remove)$'
-PUSH_RE = r'Vec::<%s>::(push|insert)$'
+KEY_PARAM = 2          # `constraint_id: u64`  (public signature)
+
+# --------------------------------------------------------------------------------------------- tables
+# ways of taking one element out of a Vec, element = the call's result
+REMOVE_ITEMS = {
+    'remove': 'v.remove(i): the tail is shifted',
+    'swap_remove': 'v.swap_remove(i): the last element fills the hole (order is not part of C14)',
+}
+# ways of putting one element into a Vec, element = last argument
+PUSH_ITEMS = {
+    'push': 'v.push(x)   (also what the normal form makes of v.extend([x]))',
+    'insert': 'v.insert(i, x): the position is not part of C14 (set semantics)',
+}
+# calls that may appear between `self.list` and the search loop without changing which element has which index
+INDEX_PRESERVING = {
+    'iter': 'slice::iter', 'iter_mut': 'slice::iter_mut', 'into_iter': '(&Vec).into_iter()', 'by_ref': 'Iterator::by_ref',
+    'next': 'the loop\'s own next()', 'deref': 'Vec -> slice', 'deref_mut': 'Vec -> slice', 'as_slice': 'Vec::as_slice',
+    'as_mut_slice': 'Vec::as_mut_slice', 'as_ref': 'AsRef<[T]>', 'borrow': 'Borrow<[T]>', 'copied': 'Iterator::copied', 'cloned': 'Iterator::cloned',
+}
+# mutating Vec operations that keep the multiset of elements (C14 speaks about the lists as sets)
+ORDER_ONLY = {'sort', 'sort_by', 'sort_by_key', 'sort_by_cached_key', 'sort_unstable', 'sort_unstable_by', 'sort_unstable_by_key', 'reverse', 'swap',
+              'rotate_left', 'rotate_right', 'reserve', 'reserve_exact', 'shrink_to_fit', 'shrink_to'}
+# bool-valued calls `f(opt, |c| <pred c>)` that are false whenever the predicate closure is false
+#   item -> (index of the closure argument, extra condition on the call)
+CLOSURE_PREDICATES = {
+    'is_some_and': (1, None),                                                     # opt.is_some_and(|c| c.id == k)
+    'is_ok_and': (1, None),                                                       # res.is_ok_and(|c| c.id == k)
+    'map_or': (2, lambda c: c.args[1]['k'] == 'const' and c.args[1]['v'].replace('const ', '') == 'false'),   # opt.map_or(false, |c| c.id == k)
+    'any': (1, None),                                                             # opt.iter().any(|c| c.id == k)  (not spliced: base is not a closure chain)
+}
+
+
+def _cv(o):
+    return o['v'].replace('const ', '').strip() if o['k'] == 'const' else None
+
+
+def _is_local(o, l):
+    return o['k'] in ('copy', 'move') and o['pl']['l'] == l and not o['pl']['p']
+
+
+# ------------------------------------------------------------------------- path-sensitive reachability
+def cp_reach(body, starts, assume_stmt=None, assume_call=None):
+    """forward reachability with constant propagation of bool locals (as templates.reach_cp), where in
+    addition the results of the given comparison statements / calls are *assumed* to be a constant:
+    assume_stmt: {id(stmt): bool}, assume_call: {bb: bool}.  Used to ask `what is reachable if every
+    id comparison fails`."""
+    assume_stmt = assume_stmt or {}; assume_call = assume_call or {}
+    seen = set(); out = set(); work = [(s, frozenset()) for s in starts]
+    while work:
+        bi, env = work.pop()
+        if (bi, env) in seen: continue
+        seen.add((bi, env)); out.add(bi)
+        if len(seen) > 60000: return body.reach(starts)       # give up: plain over-approximation
+        e = dict(env)
+        blk = body.blocks[bi]
+        for st in blk['st']:
+            if 'dst' not in st: continue
+            d = st['dst']
+            if d['p']: continue
+            rv = st['rv']; ops = rv.get('ops') or [None]; o = ops[0]
+            if id(st) in assume_stmt: e[d['l']] = assume_stmt[id(st)]
+            elif rv['k'] == 'use' and o['k'] == 'const' and _cv(o) in ('true', 'false'): e[d['l']] = (_cv(o) == 'true')
+            elif rv['k'] == 'use' and o['k'] in ('copy', 'move') and not o['pl']['p'] and o['pl']['l'] in e: e[d['l']] = e[o['pl']['l']]
+            elif rv['k'] == 'un' and rv['op'] == 'Not' and o['k'] in ('copy', 'move') and not o['pl']['p'] and o['pl']['l'] in e: e[d['l']] = not e[o['pl']['l']]
+            else: e.pop(d['l'], None)
+            if rv['k'] == 'ref' and rv.get('mut'): e.pop(rv['pl']['l'], None)
+        t = blk['term']
+        succs = body.succ(bi)
+        if t['k'] == 'call':
+            if not t['dst']['p']:
+                dl = t['dst']['l']
+                nm = t['r'] or t['f']; a0 = t['args'][0] if t['args'] else None
+                if bi in assume_call: e[dl] = assume_call[bi]
+                elif T.NOT_CALL.search(nm) and a0 and a0['k'] in ('copy', 'move') and not a0['pl']['p'] and a0['pl']['l'] in e: e[dl] = not e[a0['pl']['l']]
+                else: e.pop(dl, None)
+        elif t['k'] == 'switch' and t['d']['k'] != 'const' and not t['d']['pl']['p'] and t['d']['pl']['l'] in e:
+            v = 1 if e[t['d']['pl']['l']] else 0
+            m = {val: tg for val, tg in t['ts']}
+            succs = [m.get(v, t['else'])]
+        fe = frozenset(e.items())
+        for s in succs:
+            if body.blocks[s]['cleanup']: continue
+            work.append((s, fe))
+    return out
+
+
+# ------------------------------------------------------------------------------------- the search loop
+def recv_field(body, call):
+    """field of `self` a Vec method call operates on (receiver followed through borrows / copies), or None"""
+    if not call.args: return None
+    fs, root, _ = T.access_path(body, call.args[0])
+    if root == 1 and fs and (fs[0][0] == INST or fs[0][0].endswith('::' + INST)): return fs[0][1]
+    return None
+
+
+def vec_calls(body, items, field):
+    return [c for c in body.calls if c.item in items and re.search(r'\bVec::<.*>::(%s)$' % '|'.join(items), c.name) and recv_field(body, c) == field]
+
+
+def counter_defs(body, l):
+    """`l` is a position counter: every definition is `l = 0` or `l = l + 1`.  Returns (init_bbs, inc_bbs, inc_stmt_ids) or None"""
+    inits = []; incs = []; ids = set()
+    for k, bi, d in body.defs_of(l):
+        if k != 'stmt' or d['dst']['p']: return None
+        rv = d['rv']; ops = rv.get('ops') or []
+        if rv['k'] == 'use' and _cv(ops[0]) == '0_usize':
+            inits.append(bi)
+        elif rv['k'] == 'bin' and rv['op'] in ('Add', 'AddUnchecked') and ((_is_local(ops[0], l) and _cv(ops[1]) == '1_usize') or (_is_local(ops[1], l) and _cv(ops[0]) == '1_usize')):
+            incs.append(bi); ids.add(id(d))                                   # i = i + 1   (normal form of position / wrapping form)
+        elif rv['k'] == 'use' and ops[0]['k'] in ('copy', 'move') and [p.get('f') for p in ops[0]['pl']['p'] if isinstance(p, dict)] == ['0']:
+            # i += 1 in a debug build:  t = AddWithOverflow(i, 1); assert(!t.1); i = t.0
+            tds = body.defs_of(ops[0]['pl']['l'])
+            if len(tds) != 1 or tds[0][0] != 'stmt': return None
+            trv = tds[0][2]['rv']
+            if not (trv['k'] == 'bin' and trv['op'] == 'AddWithOverflow' and _is_local(trv['ops'][0], l) and _cv(trv['ops'][1]) == '1_usize'): return None
+            incs.append(bi); ids.add(id(d)); ids.add(id(tds[0][2]))
+        else:
+            return None
+    return (inits, incs, ids) if inits and incs else None
+
+
+def id_comparisons(ctx, body, lo):
+    """comparisons `item.id == key` of the search loop `lo`.  Returns (assume_stmt, assume_call, sites):
+    the value each comparison's result has when the ids differ."""
+    nxt = lo[0]
+    def is_id(s): return s.has_field('v1::Constraint', 'id') and nxt in s.call_objs
+    def is_key(s): return KEY_PARAM in s.params and not s.has_field('v1::Constraint', 'id')
+    a_st = {}; a_call = {}; sites = []
+    for bi, st in body.stmts():
+        rv = st['rv']
+        # x.id == k / k == x.id / x.id != k on the integers themselves
+        if rv['k'] == 'bin' and rv['op'] in ('Eq', 'Ne') and not st['dst']['p']:
+            a, b = [ctx.S.slice_operand(body, o) for o in rv['ops']]
+            if (is_id(a) and is_key(b)) or (is_id(b) and is_key(a)):
+                a_st[id(st)] = (rv['op'] == 'Ne'); sites.append(bi)
+    for c in body.calls:
+        # <u64 as PartialEq>::eq(&x.id, &k)
+        if c.item in ('eq', 'ne') and 'PartialEq' in (c.trait or '') and re.search(r'^&*u64$', (c.self_ty or '').replace(' ', '')) and len(c.args) == 2:
+            a, b = [ctx.S.slice_operand(body, o) for o in c.args]
+            if (is_id(a) and is_key(b)) or (is_id(b) and is_key(a)):
+                a_call[c.bb] = (c.item == 'ne'); sites.append(c.bb)
+        # opt.is_some_and(|c| c.id == k) and relatives: closure not spliced by the normal form
+        ent = CLOSURE_PREDICATES.get(c.item)
+        if ent and len(c.args) > ent[0] and (ent[1] is None or ent[1](c)) and re.search(r'(Option|Result|Iterator)', c.name):
+            recv = ctx.S.slice_operand(body, c.args[0]); cl = ctx.S.slice_operand(body, c.args[ent[0]])
+            if not (nxt in recv.call_objs and KEY_PARAM in cl.params): continue
+            good = False
+            for cn in cl.closures:
+                cb = ctx.F.bodies.get(cn)
+                if cb is None: continue
+                rets = [d for d in cb.defs_of(0)]
+                if not rets: continue
+                ok = True
+                for k, b2, d in rets:
+                    # the closure's value is the comparison of its argument's id with the captured key
+                    if not (k == 'stmt' and not d['dst']['p'] and d['rv']['k'] == 'bin' and d['rv']['op'] == 'Eq'): ok = False; break
+                    x, y = [ctx.S.slice_operand(cb, o) for o in d['rv']['ops']]
+                    def arg_id(s): return s.has_field('v1::Constraint', 'id') and 2 in s.params
+                    def cap(s): return 1 in s.params and not s.has_field('v1::Constraint', 'id')
+                    if not ((arg_id(x) and cap(y)) or (arg_id(y) and cap(x))): ok = False; break
+                good = good or ok
+            if good:
+                a_call[c.bb] = False; sites.append(c.bb)
+    return a_st, a_call, sites
+
+
+def lookup(ctx, R, body, rm, src_field, dst_field):
+    """the index of removal `rm` is the position, in self.src_field, of an element whose id is the argument"""
+    ix_op = rm.args[1]
+    ix = ctx.S.slice_operand(body, ix_op)
+    counters = {l: counter_defs(body, l) for l in sorted(ix.locals) if l > body.argc}
+    counters = {l: v for l, v in counters.items() if v}
+    loops = T.for_loops(body)
+    found = []
+    for l, (inits, incs, inc_ids) in counters.items():
+        cands = [lo for lo in loops if all(b in lo[4] for b in incs)]
+        if cands: found.append((l, inits, incs, inc_ids, min(cands, key=lambda lo: len(lo[4]))))
+    ctx.check(len(found) >= 1, R + '/lookup/index-from-search', 'T-CARRY', body.name,
+              'the removed index is not the position counter of a search loop (counter from 0, +1 per element)', body.site(rm.bb))
+    for l, inits, incs, inc_ids, lo in found:
+        nxt, header, some_bb, none_bb, blocks = lo
+        site = body.site(nxt.bb)
+        # ---- which list, and is the counter an index into it
+        it = ctx.S.slice_operand(body, nxt.args[0])
+        ctx.check(it.has_field(INST, src_field) and not it.has_field(INST, dst_field), R + '/lookup/list', 'T-CARRY', body.name,
+                  'lookup does not search self.%s' % src_field, site)
+        adaptors = sorted({x.item for x in it.call_objs if ('Iterator' in (x.trait or '') or 'Iterator' in x.name) and x.item not in INDEX_PRESERVING})
+        ctx.check(not adaptors, R + '/lookup/index-of-the-list-itself', 'T-CARRY', body.name,
+                  'the position is computed on an adapted iterator (%s), so it is not an index into self.%s' % (adaptors, src_field), site)
+        once = (all(b not in blocks for b in inits) and T.must_pass(body, some_bb, {header}, set(incs))
+                and not any(body.reach(body.succ(b), stop={header}) & set(incs) for b in incs))
+        ctx.check(once, R + '/lookup/counts-every-element', 'T-LOOPMUST', body.name,
+                  'the position counter is not incremented exactly once for every element that is not the match', site)
+        # ---- where the counter is read: only as `Some(counter)` under a successful id comparison
+        aliases = T.copies_of(body, l, through_refs=False)
+        hits = []; other = []
+        for a in aliases:
+            for kind, bi, x in body.uses.get(a, ()):
+                if kind == 'stmt':
+                    if id(x) in inc_ids: continue
+                    rv = x['rv']
+                    if rv['k'] == 'use' and not x['dst']['p'] and x['dst']['l'] in aliases: continue
+                    if rv['k'] == 'agg' and rv['adt'].endswith('Option::Some') and not x['dst']['p']: hits.append((bi, x))
+                    else: other.append(bi)
+                else: other.append(bi)
+        ctx.check(bool(hits) and not other, R + '/lookup/result-is-position', 'T-CARRY', body.name,
+                  'the position counter is used other than as the `Some(position)` result of the search (bb%s)' % sorted(set(other)), site)
+        a_st, a_call, sites = id_comparisons(ctx, body, lo)
+        ctx.check(bool(sites), R + '/lookup/by-id', 'T-CARRY', body.name,
+                  'the search loop does not compare the element\'s constraint id with the argument', site)
+        if sites:
+            r = cp_reach(body, [0], a_st, a_call)
+            reached = sorted({bi for bi, x in hits if bi in r} | {bi for bi in other if bi in r})
+            ctx.check(not reached, R + '/lookup/eq', 'T-BRANCHFX', body.name,
+                      'the position is taken (bb%s) on a path on which no id comparison succeeded' % reached, site)
+        # ---- not found => Err, nothing else
+        res0 = sorted({x['dst']['l'] for bi, x in hits})
+        res = set()                                   # the Option the search leaves its result in, and the locals it is moved through
+        for rl in res0: res |= T.copies_of(body, rl, through_refs=False)
+        def res_def_ok(k, d):
+            if k != 'stmt' or d['dst']['p']: return False
+            rv = d['rv']
+            if rv['k'] == 'agg': return (rv['adt'].endswith('Option::Some') and any(id(d) == id(x) for _, x in hits)) or rv['adt'].endswith('Option::None')
+            return rv['k'] == 'use' and rv['ops'][0]['k'] in ('copy', 'move') and not rv['ops'][0]['pl']['p'] and rv['ops'][0]['pl']['l'] in res
+        defs_ok = all(res_def_ok(k, d) for rl in res for k, bi, d in body.defs_of(rl))
+        ctx.check(defs_ok, R + '/lookup/result-some-only-on-match', 'T-ERRFLOW', body.name, 'the search result is also assigned something else than Some(position) / None', site)
+        for rl in res0:
+            out = T.errflow(body, rl); ctx.counters['cfg_paths'] += 1
+            bad = sorted({h for k, h in out if k == 'bad'})
+            ctx.check(not bad, R + '/lookup/none-is-error', 'T-ERRFLOW', body.name, 'lookup result: %s' % '; '.join(bad), site, consumers=[h for k, h in out])
+        # ---- the index is that result, unchanged
+        ctx.check(l in ix.locals and all(rl in ix.locals for rl in res0), R + '/move/remove-index', 'T-CARRY', body.name, 'removed index does not come from the lookup', body.site(rm.bb))
+        fs, root, _ = T.access_path(body, ix_op)
+        plain = root in res and all(T.WRAPPER_OWNER.search(a) for a, f in fs)
+        # anything computed on the way (index + 1, index.min(..), a cast) makes it another index
+        computed = sorted({bi for x in ix.locals if x > body.argc for k, bi, d in body.defs_of(x)
+                           if (k == 'stmt' and d['rv']['k'] in ('bin', 'un', 'cast') and id(d) not in inc_ids) or
+                              (k == 'call' and re.fullmatch(r'[ui](8|16|32|64|128|size)', body.locals[x].strip()))})
+        if plain: ctx.ok(R + '/move/remove-index-plain', 'T-CARRY', body.site(rm.bb))
+        elif computed: ctx.bad(R + '/move/remove-index-plain', 'T-CARRY', body.name, 'the removed index is computed from the lookup result (bb%s), not the result itself' % computed, body.site(rm.bb))
+        else: ctx.undecided(R + '/move/remove-index-plain', 'T-CARRY', body.site(rm.bb), 'the index reaches remove() through more than copies / `?` / Some-payload; only its dependence on the lookup is decided')
+    return found
+
+
+def value_root(body, op):
+    """local a moved value was built in: follow plain single-definition moves backwards"""
+    if op['k'] not in ('copy', 'move') or op['pl']['p']: return None
+    l = op['pl']['l']
+    for _ in range(12):
+        ds = body.defs_of(l)
+        if len(ds) == 1 and ds[0][0] == 'stmt' and not ds[0][2]['dst']['p']:
+            rv = ds[0][2]['rv']
+            if rv['k'] == 'use' and rv['ops'][0]['k'] in ('copy', 'move') and not rv['ops'][0]['pl']['p']:
+                l = rv['ops'][0]['pl']['l']; continue
+        break
+    return l
 
 
 def one_move(ctx, name, src_field, src_ty, dst_field, dst_ty):
     R = 'C14.%s' % name
     body = ctx.method(R + '/anchor', INST, name)
     if body is None: return
+    oks = body.strict_ok_exits()
+    rm = vec_calls(body, REMOVE_ITEMS, src_field)
+    pu = vec_calls(body, PUSH_ITEMS, dst_field)
+    # ---- the move itself: exactly one element out of src and one into dst on every successful path
+    for what, calls, fld in (('remove', rm, src_field), ('push', pu, dst_field)):
+        bbs = {c.bb for c in calls}
+        ctx.counters['cfg_paths'] += 1
+        ctx.check(bool(bbs) and bool(oks) and T.must_pass(body, 0, oks, bbs), R + '/move/%s-on-every-success-path' % what, 'T-MUSTCALL', body.name,
+                  'an Ok-exit is reachable without a %s on self.%s' % (what, fld), body.site())
+        twice = sorted(c.bb for c in calls if c.target >= 0 and body.reach([c.target]) & bbs)
+        ctx.check(not twice, R + '/move/one-%s' % what, 'T-LOOPMUST', body.name,
+                  'a second %s on self.%s can follow the one at bb%s (or it is inside a loop)' % (what, fld, twice), body.site(twice[0]) if twice else body.site())
+    # no other size-changing operation on the two lists
+    extra = []
+    for bi, what, kind, call in T.mutation_sites(body, ctx.S, ctx.F):
+        if call is None or call in rm or call in pu: continue
+        f = recv_field(body, call)
+        if f in (src_field, dst_field) and call.item not in ORDER_ONLY: extra.append('%s on self.%s (bb%d)' % (call.item, f, bi))
+    ctx.check(not extra, R + '/move/no-other-change-of-the-lists', 'T-CARRY', body.name, 'the lists are also changed by: %s' % '; '.join(sorted(set(extra))), body.site())
     # ---- lookup: position of the element whose id equals the argument; None => Err before any mutation
-    pos = [c for c in body.calls if c.item in ('position', 'rposition') and 'Iterator' in (c.trait or '')]
-    ctx.check(len(pos) == 1, R + '/lookup/one', 'T-ERRFLOW', body.name, 'expected one position(..) lookup, found %d' % len(pos), body.site())
-    for c in pos:
-        r = ctx.S.slice_operand(body, c.args[0]); cl = ctx.S.slice_operand(body, c.args[1])
-        ctx.check(r.has_field(INST, src_field) and not r.has_field(INST, dst_field), R + '/lookup/list', 'T-CARRY', body.name,
-                  'lookup does not search self.%s' % src_field, body.site(c.bb))
-        adaptors = sorted({x.item for x in r.call_objs if 'Iterator' in (x.trait or '') and x.item not in ('position', 'rposition', 'into_iter', 'iter', 'by_ref')})
-        ctx.check(not adaptors, R + '/lookup/index-of-the-list-itself', 'T-CARRY', body.name,
-                  'the position is computed on an adapted iterator (%s), so it is not an index into self.%s' % (adaptors, src_field), body.site(c.bb))
-        ctx.check(cl.has_field('v1::Constraint', 'id') and 2 in cl.params, R + '/lookup/by-id', 'T-CARRY', body.name,
-                  'lookup predicate does not compare the constraint id with the argument', body.site(c.bb))
-        eq = False
-        for cn in cl.closures:
-            cb = ctx.F.bodies.get(cn)
-            if cb is None: continue
-            for bi, st in cb.stmts():
-                if st['rv']['k'] == 'bin' and st['rv']['op'] == 'Eq' and st['dst']['l'] == 0: eq = True
-        ctx.check(eq, R + '/lookup/eq', 'T-BRANCHFX', body.name, 'lookup predicate is not an equality test', body.site(c.bb))
-        errflow_calls(ctx, R + '/lookup/none-is-error', body, [c], 'lookup result')
-    # ---- the move itself
-    rm = [c for c in body.calls if re.search(REMOVE_RE % re.escape(src_ty), c.name)]
-    pu = [c for c in body.calls if re.search(PUSH_RE % re.escape(dst_ty), c.name)]
-    ctx.check(len(rm) == 1, R + '/move/one-remove', 'T-CARRY', body.name, 'expected exactly one removal from self.%s, found %d' % (src_field, len(rm)), body.site())
-    ctx.check(len(pu) == 1, R + '/move/one-push', 'T-CARRY', body.name, 'expected exactly one push onto self.%s, found %d' % (dst_field, len(pu)), body.site())
-    loops = body.loops()
-    for c in rm + pu:
-        ctx.check(not any(c.bb in blocks for blocks in loops.values()), R + '/move/not-in-loop', 'T-LOOPMUST', body.name, '%s is inside a loop' % c.item, body.site(c.bb))
-        ctx.check(all(body.dominates(c.bb, e) for e in body.strict_ok_exits()), R + '/move/on-every-success-path', 'T-MUSTCALL', body.name,
-                  '%s does not dominate the Ok-exit' % c.item, body.site(c.bb))
+    if not rm:
+        ctx.bad(R + '/lookup/index-from-search', 'T-CARRY', body.name, 'no removal from self.%s, hence no lookup to check' % src_field, body.site())
     for c in rm:
-        r = ctx.S.slice_operand(body, c.args[0]); ix = ctx.S.slice_operand(body, c.args[1])
-        ctx.check(r.has_field(INST, src_field), R + '/move/remove-from', 'T-CARRY', body.name, 'removal is not on self.%s' % src_field, body.site(c.bb))
-        ctx.check(any(p in ix.call_objs for p in pos), R + '/move/remove-index', 'T-CARRY', body.name, 'removed index does not come from the lookup', body.site(c.bb))
-        ctx.check(not ix.has_const(r'^[0-9]+_usize$') or True, R + '/move/remove-index-plain', 'T-CARRY', body.name, '', body.site(c.bb))
+        lookup(ctx, R, body, c, src_field, dst_field)
     for c in pu:
-        r = ctx.S.slice_operand(body, c.args[0]); it = ctx.S.slice_operand(body, c.args[-1])
-        ctx.check(r.has_field(INST, dst_field), R + '/move/push-to', 'T-CARRY', body.name, 'push is not on self.%s' % dst_field, body.site(c.bb))
-        ctx.check(bool(rm) and rm[0] in it.call_objs and not any(x.item == 'clone' for x in it.call_objs), R + '/move/same-element', 'T-CARRY', body.name,
+        it = ctx.S.slice_operand(body, c.args[-1])
+        ctx.check(any(r in it.call_objs for r in rm) and not any(x.item in ('clone', 'to_owned', 'clone_from') for x in it.call_objs), R + '/move/same-element', 'T-CARRY', body.name,
                   'the pushed element is not the removed one', body.site(c.bb))
-        if c.item == 'insert' or len(c.args) != 2:
-            ctx.bad(R + '/move/push-shape', 'T-CARRY', body.name, 'unexpected push form ' + c.name[:60], body.site(c.bb))
     if name == 'relax_constraint':
-        aggs = find_aggregates(body, 'v1::RemovedConstraint')
-        ctx.check(len(aggs) == 1, R + '/reason/one-aggregate', 'T-CARRY', body.name, 'expected one RemovedConstraint aggregate, found %d' % len(aggs), body.site())
-        for bi, st in aggs:
-            s = carry_field(ctx, R + '/reason/constraint', body, st, 'constraint', site=body.site(bi))
-            ctx.check(bool(rm) and s is not None and rm[0] in s.call_objs, R + '/reason/constraint-is-removed-one', 'T-CARRY', body.name, 'wrapped constraint is not the removed one', body.site(bi))
-            carry_field(ctx, R + '/reason/removed_reason', body, st, 'removed_reason', need_params=[3], site=body.site(bi))
-            carry_field(ctx, R + '/reason/removed_reason_parameters', body, st, 'removed_reason_parameters', need_params=[4], site=body.site(bi))
-            # nothing of the element is rewritten: Some(c) directly
-            op = agg_field_operand(st, 'constraint')
+        for c in pu:
+            root = value_root(body, c.args[-1])
+            ok = root is not None and 'v1::RemovedConstraint' in body.locals[root]
+            ctx.check(ok, R + '/reason/wrapper', 'T-CARRY', body.name, 'the pushed value is not a RemovedConstraint built here', body.site(c.bb))
+            if not ok: continue
+            want = (('constraint', None), ('removed_reason', 3), ('removed_reason_parameters', 4))
+            for f, param in want:
+                s = ctx.S.backslice(body, [(root, f)]); ctx.counters['slices'] += 1
+                if param is None:
+                    ctx.check(any(r in s.call_objs for r in rm), R + '/reason/constraint-is-removed-one', 'T-CARRY', body.name, 'wrapped constraint is not the removed one', body.site(c.bb))
+                else:
+                    ctx.check(param in s.params, R + '/reason/' + f, 'T-CARRY', body.name, 'field `%s` does not depend on: parameter _%d' % (f, param), body.site(c.bb))
     else:
         # restore: the pushed element is the `.constraint` payload of the removed entry
         for c in pu:
@@ -79,7 +341,11 @@ def one_move(ctx, name, src_field, src_ty, dst_field, dst_ty):
         for bi, st in body.stmts():
             rv = st['rv']
             if rv['k'] == 'ref' and rv.get('mut') and rv['pl']['l'] in chain: touched.append(body.site(bi))
-            if st['dst']['p'] and st['dst']['l'] in chain: touched.append(body.site(bi))
+            if st['dst']['p'] and st['dst']['l'] in chain:
+                fs = fields_of_place(st['dst'])
+                # building the wrapper field by field (`rc.removed_reason = reason`) is not a change of the element
+                if fs and fs[0][0].endswith('v1::RemovedConstraint') and fs[0][1] in ('removed_reason', 'removed_reason_parameters'): continue
+                touched.append(body.site(bi))
         ctx.check(not touched, R + '/element-not-borrowed-mutably', 'T-CARRY', body.name, 'the moved element is modified at %s' % sorted(set(touched)), body.site(c.bb), chain=sorted(chain))
     # no field of the moved constraint is assigned
     writes = [body.site(bi) for bi, st in body.stmts() if st['dst']['p'] and any(a.endswith('v1::Constraint') for a, f in fields_of_place(st['dst']))]
@@ -93,4 +359,4 @@ RELIES_ON = {'C05': ['C05.flags', 'C05.lists', 'C05.rule']}
 def check(ctx):
     one_move(ctx, 'relax_constraint', 'constraints', 'v1::Constraint', 'removed_constraints', 'v1::RemovedConstraint')
     one_move(ctx, 'restore_constraint', 'removed_constraints', 'v1::RemovedConstraint', 'constraints', 'v1::Constraint')
-    ctx.floor('C14.relax_constraint', 20); ctx.floor('C14.restore_constraint', 17)
+    ctx.floor('C14.relax_constraint', 26); ctx.floor('C14.restore_constraint', 23)
